@@ -119,8 +119,8 @@ SPEC = dict(
     nontrivial=nontrivial,
     rule="a case = a rule list (1-6 rules, 0-4 conditions each; type-directed over all 15 operators, 5 datatypes, value kinds "
          "string/int/float/bool/nil/list/map, Field/Fields/both/neither, root. prefix, ?.NUM_DESCENDANTS, trace/span/invalid scope, drop, "
-         "SampleRate <=0..100, deterministic/dynamic/missing downstream sampler) built as a real config.RulesBasedSamplerConfig, and several "
-         "traces (0-8 spans, with/without root span, per-field presence and typing drawn from small overlapping pools) each run through the "
+         "SampleRate <=0..100, deterministic/dynamic/missing downstream sampler, CheckNestedFields on in ~45% of cases with dotted paths into nested map values, with and without root. prefix) built as a real config.RulesBasedSamplerConfig, and several "
+         "traces (0-8 spans, root span first/middle/last/absent, per-field presence and typing drawn from small overlapping pools) each run through the "
          "real RulesBasedSampler.GetSampleRate with a seeded math/rand; every evaluation also records the real per-(condition, span) "
          "extraction and match, and both scope functions per rule; non-trivial = has rules, conditions, spans and an evaluation in which "
          "some (condition, span) cell matched and some did not; distinct by transcript hash",
@@ -141,7 +141,7 @@ SPEC = dict(
              "Known divergence recorded as findings: absent fields match under string-coercing operators.",
         technique="Lean 4 proof (loop/short-cut refinement to all/any specifications, refutation by witness) + model/implementation correspondence check",
     ),
-    assumptions=["CheckNestedFields = false (the gjson fallback is not modelled)",
+    assumptions=["CheckNestedFields: nested paths are plain keys separated by dots leading through map values (gjson wildcards, escapes, array indices, modifiers are not modelled); json.Marshal of the span never fails; the JSON text gjson returns for a value is an ext graph (encoding/json + gjson)",
                  "Datatype is one of '', string, int, float, bool and condition values are what the YAML loader yields (string, int, float64, bool, nil, "
                  "sequence, mapping), as config validation enforces; span values are string, int64, float64, bool, nil or a list/map (other wire "
                  "types are C09's subject)",
